@@ -213,10 +213,13 @@ def signal_obj(w):
 
 class Tags:
     def getitem(self, eng, tag):
-        t = z3.simplify(zint(tag))
-        if z3.is_int_value(t) and t.as_long() == 2:
+        # the signal under contract carries one segmentation descriptor (tag 2): any other tag read back means the
+        # parser is not looking at what the encoder wrote
+        eng.oblige('safety', 'descriptor.tag_read_back', zint(tag) == 2)
+        if eng.branch(zint(tag) == 2):
             return Opaque('class:SegmentationDescriptor')
-        raise Unsupported('descriptor tag is not the constant 2 on this path')
+        from pyvc.engine import PathCut
+        raise PathCut()
 
 
 def signal_sequel(eng, env_after, value):
@@ -262,7 +265,8 @@ SIGNAL = Contract(
                    "result['cw_index'] == old(self.cw_index) and result['tier'] == old(self.tier) and result['splice_command_type'] == 5"),
         ('lengths', "result['section_length'] * 8 == nbits(__bits__) - 24 and "
                     "result['splice_command_length'] == (15 if old(self.splice_insert.splice_immediate_flag) else 20) and "
-                    "result['header_size'] == 3"),
+                    "result['header_size'] == 3 and "
+                    "result['descriptors'][0]['length'] * 8 == nbits(__bits__) - 176 - (120 if old(self.splice_insert.splice_immediate_flag) else 160)"),
         ('splice', "result['splice_insert']['splice_event_id'] == old(self.splice_insert.splice_event_id) and "
                    "result['splice_insert']['avail_num'] == old(self.splice_insert.avail_num) and "
                    "result['splice_insert']['avails_expected'] == old(self.splice_insert.avails_expected) and "
